@@ -116,9 +116,14 @@ class Gen:
         parts = ["load %s prob %d %d %s" % (h, nc, nr, sense)]
         for e in cols:
             parts.append(self.entstr(e))
+        objs = []
         for j in range(nc):
             lo, up = self.bounds()
-            parts.append("%s %s %s %s" % (qstr(self.val()), lo, up, self.cn[j]))
+            objs.append(self.val())
+            parts.append("%s %s %s %s" % (qstr(objs[-1]), lo, up, self.cn[j]))
+        rows_used = {i for e in cols for i, v in e}
+        # the problem keeps its shape through an MPS file: no empty row, every column used
+        self.file_ok = nr > 0 and nc > 0 and len(rows_used) == nr and all(cols[j] or objs[j] != 0 for j in range(nc))
         for i in range(nr):
             parts.append("%s %s %s" % (qstr(self.val()), self.sense[i], self.rn[i]))
         self.emit("  ".join(parts))
@@ -402,6 +407,10 @@ def edit_history(seed, steps, start="random", big=False, dump_every=8, grow=Fals
         g.create()
     else:
         g.load(r.randint(1, 5), r.randint(1, 5))
+        if g.file_ok and r.random() < .3:
+            import lpfam
+            for ln in lpfam.via_file_cmds("edit_%d" % seed):
+                g.emit(ln)
     g.emit("dump h0")
     for s in range(steps):
         if grow and r.random() < .7:
